@@ -29,10 +29,13 @@ package completenesschecking
 // object aborts; a full batch is checked before it is replaced.
 //@ func (*findMissingQueue).add
 //@   requires q.contentAddressableStorage != nil
-//@   modifies qAdds, q.pending, baCalls(q.contentAddressableStorage), fmArg(q.contentAddressableStorage), fmRes(q.contentAddressableStorage),
+//@   modifies qAdds, sbAdds, q.pending, baCalls(q.contentAddressableStorage), fmArg(q.contentAddressableStorage), fmRes(q.contentAddressableStorage),
 //@         fmErr(q.contentAddressableStorage), fmResLen(q.contentAddressableStorage)
 //@   exitghost qAdds := old(qAdds) + 1
 //@   ensures [counted] qAdds == old(qAdds) + 1
+//@   ensures [every-digest-given-is-queued] blobDigest != nil && result == nil ==>
+//@         (q.pending.digests == old(q.pending.digests) ==> sbAdds(q.pending.digests) == old(sbAdds(q.pending.digests)) + 1)
+//@         && (q.pending.digests != old(q.pending.digests) ==> sbAdds(q.pending.digests) == 1)
 //@   ensures [batch-dropped-only-after-check] q.pending.digests != old(q.pending.digests) ==>
 //@         baCalls(q.contentAddressableStorage) == old(baCalls(q.contentAddressableStorage)) + 1
 //@         && fmErr(q.contentAddressableStorage) == nil && fmResLen(q.contentAddressableStorage) == 0
